@@ -71,7 +71,7 @@ theorem C49_between_test (n : Nat) (l u x : Int) (hn : 1 ≤ n) :
 /-- Error table of `between/3`: the first argument, in the order Lower, Upper, X, that is unbound
 (Lower, Upper only) or not an integer decides. An atom such as `inf` is ill-typed: this version of
 the library has no infinite upper bound. -/
-theorem C49_between_errors (n : Nat) (L U X : Arg) (l u : Int) (v k : Nat) :
+theorem C49_between_errors (n : Nat) (U X : Arg) (l u : Int) (v k : Nat) :
     between n (.var v) U X = .err .inst ∧
     between n (.bad k) U X = .err (.typeInt (.bad k)) ∧
     between n (.int l) (.var v) X = .err .inst ∧
@@ -110,62 +110,45 @@ theorem C49_succ_test (n : Nat) (i s : Int) (hn : 1 ≤ n) (hi : 0 ≤ i) (hs : 
   rw [succ_eq_spec]
   have h1 : ¬ i < 0 := by omega
   have h2 : ¬ s < 0 := by omega
-  by_cases g : s = i + 1 <;> simp [specSucc, specNlzErr, h1, h2, g, ansN, List.take_of_length_le, hn]
+  simp only [specSucc, specNlzErr, h1, h2, ↓reduceIte]
+  split <;> simp [ansN, List.take_of_length_le, hn]
 
 /-- Every answer of `succ/2`, in every mode, is a pair `(i, i + 1)` with `i ≥ 0` that is compatible
 with the arguments; there is at most one. -/
 theorem C49_succ_sound (n : Nat) (I S : Arg) (as : List (Int × Int)) (h : succ n I S = .ans as) :
     as.length ≤ 1 ∧ ∀ p ∈ as, p.2 = p.1 + 1 ∧ 0 ≤ p.1 ∧ argAdmits I p.1 = true ∧ argAdmits S p.2 = true := by
   rw [succ_eq_spec] at h
-  unfold specSucc at h
-  split at h
-  · exact absurd h (by simp)
-  · exact absurd h (by simp)
-  · rename_i e1 e2
-    split at h
-    · rename_i i s
-      have hi : ¬ i < 0 := by intro g; simp [specNlzErr, g] at e1
-      split at h
-      · rename_i g
-        simp only [ansN, Res.ans.injEq] at h
-        subst h
-        refine ⟨by simp; omega, fun p hp => ?_⟩
-        have := List.mem_of_mem_take hp
-        simp only [List.mem_singleton] at this
-        subst this
-        exact ⟨g, by omega, by simp [argAdmits], by simp [argAdmits]⟩
-      · simp only [Res.ans.injEq] at h; subst h; simp
-    · rename_i i _ _
-      have hi : ¬ i < 0 := by intro g; simp [specNlzErr, g] at e1
-      simp only [ansN, Res.ans.injEq] at h
-      subst h
-      refine ⟨by simp; omega, fun p hp => ?_⟩
-      have := List.mem_of_mem_take hp
-      simp only [List.mem_singleton] at this
-      subst this
-      rename_i S' _
-      refine ⟨rfl, by omega, by simp [argAdmits], ?_⟩
-      cases S' with
-      | var _ => rfl
-      | int s => rename_i hS; exact absurd rfl (hS s)
-      | bad k => simp [specNlzErr] at e2
-    · rename_i s _ _
-      split at h
-      · rename_i g
-        simp only [ansN, Res.ans.injEq] at h
-        subst h
-        refine ⟨by simp; omega, fun p hp => ?_⟩
-        have := List.mem_of_mem_take hp
-        simp only [List.mem_singleton] at this
-        subst this
-        rename_i I' _ hI _
-        refine ⟨by simp, by simp; omega, ?_, by simp [argAdmits]⟩
-        cases I' with
-        | var _ => rfl
-        | int i => exact absurd rfl (hI i s)
-        | bad k => simp [specNlzErr] at e1
-      · simp only [Res.ans.injEq] at h; subst h; simp
-    · exact absurd h (by simp)
+  cases I with
+  | bad k => simp [specSucc, specNlzErr] at h
+  | var v =>
+    cases S with
+    | bad k => simp [specSucc, specNlzErr] at h
+    | var w => simp [specSucc, specNlzErr] at h
+    | int s =>
+      by_cases hs : s < 0
+      · simp [specSucc, specNlzErr, hs] at h
+      · by_cases g : 1 ≤ s
+        · simp only [specSucc, specNlzErr, hs, g, ↓reduceIte, ansN, Res.ans.injEq] at h
+          exact take_singleton_sound n _ _ ⟨by simp, by simp; omega, by simp [argAdmits], by simp [argAdmits]⟩ as h
+        · simp only [specSucc, specNlzErr, hs, g, ↓reduceIte, Res.ans.injEq] at h
+          subst h; simp
+  | int i =>
+    by_cases hi : i < 0
+    · cases S <;> simp [specSucc, specNlzErr, hi] at h
+    · cases S with
+      | bad k => simp [specSucc, specNlzErr, hi] at h
+      | var w =>
+        simp only [specSucc, specNlzErr, hi, ↓reduceIte, ansN, Res.ans.injEq] at h
+        exact take_singleton_sound n _ _ ⟨rfl, by simp; omega, by simp [argAdmits], by simp [argAdmits]⟩ as h
+      | int s =>
+        by_cases hs : s < 0
+        · simp [specSucc, specNlzErr, hi, hs] at h
+        · by_cases g : s = i + 1
+          · subst g
+            simp only [specSucc, specNlzErr, hi, hs, ↓reduceIte, ansN, Res.ans.injEq] at h
+            exact take_singleton_sound n _ _ ⟨rfl, by simp; omega, by simp [argAdmits], by simp [argAdmits]⟩ as h
+          · simp only [specSucc, specNlzErr, hi, hs, g, ↓reduceIte, Res.ans.injEq] at h
+            subst h; simp
 
 /-- … and every such pair is found: if some `i ≥ 0` is compatible with `I` and `i + 1` with `S`,
 and not both are unbound, the goal answers exactly `(i, i + 1)`. -/
@@ -176,7 +159,26 @@ theorem C49_succ_complete (n : Nat) (I S : Arg) (i : Int) (hn : 1 ≤ n) (hi : 0
   have h1 : ¬ i < 0 := by omega
   have h2 : ¬ i + 1 < 0 := by omega
   have h3 : 1 ≤ i + 1 := by omega
-  cases I <;> cases S <;> simp_all [argAdmits, specSucc, specNlzErr, ansN, List.take_of_length_le]
+  cases I with
+  | bad k => simp [argAdmits] at hI
+  | var v =>
+    cases S with
+    | bad k => simp [argAdmits] at hS
+    | var w => exact absurd ⟨v, w, rfl, rfl⟩ hv
+    | int s =>
+      have e : s = i + 1 := by simpa [argAdmits] using hS
+      subst e
+      simp [specSucc, specNlzErr, h2, h3, ansN, List.take_of_length_le, hn]
+  | int i' =>
+    have e : i' = i := by simpa [argAdmits] using hI
+    subst e
+    cases S with
+    | bad k => simp [argAdmits] at hS
+    | var w => simp [specSucc, specNlzErr, h1, ansN, List.take_of_length_le, hn]
+    | int s =>
+      have e : s = i' + 1 := by simpa [argAdmits] using hS
+      subst e
+      simp [specSucc, specNlzErr, h1, h2, ansN, List.take_of_length_le, hn]
 
 /-- Error table of `succ/2`: an argument that is not an integer gives `type_error(integer, _)`, a
 negative integer `domain_error(not_less_than_zero, _)` (the first argument is examined first), two
@@ -216,7 +218,7 @@ theorem C49_numlist3_errors (n fuel : Nat) (L U : Arg) (Xs : LArg) (k : Nat) (hL
     numlist3 n fuel L (.bad k) Xs = .err (.typeInt (.bad k)) := by
   constructor
   · simp [numlist3, canBeInt]
-  · simp [numlist3, hL, canBeInt]
+  · cases L <;> simp_all [numlist3, canBeInt]
 
 /-- Soundness in every mode: each answer `(l, u, xs)` satisfies `l ≤ u`, `xs = [l..u]`, and is
 compatible with the arguments. -/
@@ -295,7 +297,7 @@ theorem C49_length_spec_fixed (cap n fresh : Nat) (xs : PList) (N : Arg)
     (hk : (xs.k : Int) < 2 ^ 63)
     (hN : ∀ i, N = .int i → ∀ t, xs.tail = .var t → i - xs.k ≤ cap) :
     length false cap n fresh xs N = specLength n fresh xs N :=
-  length_eq_spec false cap n fresh xs N hk (fun i e => ⟨fun h => by cases h, hN i e⟩)
+  length_eq_spec false cap n fresh xs N hk (fun i e => ⟨fun h => (by cases h), hN i e⟩)
 
 /-- A proper list with `k` elements has length `k`: `N` unbound gives the single answer `k`; an
 integer `N ≥ -2^63` succeeds iff `N = k` (negative: domain error). -/
@@ -377,12 +379,14 @@ example : length true 100 3 2 ⟨0, .var 0⟩ (.int (-(2 ^ 63) - 1)) = .err .res
 /-- … where the specification, and the fixed code, raise the domain error -/
 example : specLength 3 2 ⟨3, .nil⟩ (.int (-(2 ^ 63) - 1)) = .err (.domNlz (-(2 ^ 63) - 1)) := by decide
 example : length false 100 3 2 ⟨3, .nil⟩ (.int (-(2 ^ 63) - 1)) = .err (.domNlz (-(2 ^ 63) - 1)) := by decide
-/-- finding C49-2 on the model: `numlist(L, U, [2,3])` finds `(2,3)` and is still searching -/
-example : numlist3 1 9 (.var 0) (.var 1) (.ints [2, 3]) = .ans [(2, 3, [2, 3])] := by
-  rw [show numlist3 1 9 (.var 0) (.var 1) (.ints [2, 3]) = search 1 (numlistFound 9 (.var 0) (.var 1) (.ints [2, 3])) from rfl]
+/-- finding C49-2 on the model: `numlist(L, U, [0,1])` finds `(0,1)` and is still searching -/
+example : numlist3 1 3 (.var 0) (.var 1) (.ints [0, 1]) = .ans [(0, 1, [0, 1])] := by
+  rw [show numlist3 1 3 (.var 0) (.var 1) (.ints [0, 1])
+    = search 1 (numlistFound 3 (.var 0) (.var 1) (.ints [0, 1])) from rfl]
   simp [numlistFound, diagInts, diagNats2, diagNats4, diagNatsNext, diagNatsSigns, numlistBody_eq, rangeIncl,
     unifyInts, search, List.range_succ_eq_map]
-example : specNumlist3 2 9 (.var 0) (.var 1) (.ints [2, 3]) = .ans [(2, 3, [2, 3])] := by
-  simp [specNumlist3, canBeInt, boundsOf, rangeIncl, argAdmits, ansN, List.range_succ_eq_map]
+example : ∀ fuel, ∃ as, numlist3 2 fuel (.var 0) (.var 1) (.ints [0, 1]) = .hang as :=
+  fun fuel => ⟨_, (C49_numlist3_bound_list_partial fuel (.var 0) (.var 1) [0, 1] rfl rfl (by simp)).1⟩
+example : specNumlist3 2 9 (.var 0) (.var 1) (.ints [0, 1]) = .ans [(0, 1, [0, 1])] := by decide
 
 end Scryer.IntRel
